@@ -145,7 +145,9 @@ class JSONHandler:
             return None
         class_name, (atoms, parity) = next(iter(payload.items()))
         stereo_cls = STEREO_CLASSES[class_name]
-        return stereo_cls(tuple(int(a) for a in atoms), parity)
+        return stereo_cls(
+            tuple(None if a is None else int(a) for a in atoms), parity
+        )
 
     @classmethod
     def json_deserialize(cls, payload: str) -> MolGraph:
